@@ -30,6 +30,10 @@ pub struct SetShape {
     /// 0 = all keys distinct; 1 = one key twice inside one solution; 2 = same key in two solutions of the same contract;
     /// 3 = same key in two solutions of different contracts
     pub dup: u8,
+    /// true: only mutation 0 carries `key_words` (the others have one-word keys), so that an over-long key can meet
+    /// an empty or over-long value in the same mutation while every other mutation stays valid
+    #[serde(default)]
+    pub focus: bool,
 }
 
 fn build_set(s: &SetShape) -> SolutionSet {
@@ -60,8 +64,9 @@ fn build_set(s: &SetShape) -> SolutionSet {
             let si = m % s.solutions;
             // distinct keys: first word = m; long keys padded
             let mut key = vec![m as i64];
-            key.resize(s.key_words.max(1), 0);
-            if s.key_words == 0 {
+            let kw = if s.focus && m != 0 { 1 } else { s.key_words };
+            key.resize(kw.max(1), 0);
+            if kw == 0 {
                 key.clear();
             }
             let value = if m == 0 { vec![3; s.value_words] } else { vec![1] };
@@ -139,6 +144,7 @@ fn set_items(_t: Tier) -> Box<dyn Iterator<Item = SetShape>> {
         key_words: 1,
         value_words: 1,
         dup: 0,
+        focus: false,
     };
     let mut v = Vec::new();
     // every limit alone and all pairwise combinations of two limits at {0,1,L-1,L,L+1}
@@ -160,7 +166,11 @@ fn set_items(_t: Tier) -> Box<dyn Iterator<Item = SetShape>> {
                 for b in AROUND(*lj) {
                     let mut s2 = s.clone();
                     fj(&mut s2, b);
-                    v.push(s2);
+                    v.push(s2.clone());
+                    if s2.mutations >= 2 && (s2.key_words != 1 || s2.value_words != 1) {
+                        s2.focus = true;
+                        v.push(s2);
+                    }
                 }
             }
         }
@@ -191,7 +201,7 @@ fn set_items(_t: Tier) -> Box<dyn Iterator<Item = SetShape>> {
 
 fn set_random() -> impl Strategy<Value = SetShape> {
     let around = |l: usize| prop_oneof![2 => 0usize..4, 1 => Just(l - 1), 2 => Just(l), 1 => Just(l + 1), 1 => 0usize..=l + 2];
-    (around(100), around(100), around(10_000), around(1000), around(1000), around(10_000), 0u8..4).prop_map(|(solutions, slots, slot_words, mutations, key_words, value_words, dup)| SetShape {
+    (around(100), around(100), around(10_000), around(1000), around(1000), around(10_000), 0u8..4, any::<bool>()).prop_map(|(solutions, slots, slot_words, mutations, key_words, value_words, dup, focus)| SetShape {
         solutions,
         slots,
         slot_words,
@@ -199,6 +209,7 @@ fn set_random() -> impl Strategy<Value = SetShape> {
         key_words,
         value_words,
         dup,
+        focus,
     })
 }
 
